@@ -54,7 +54,7 @@ def showTables (n : Node) : String :=
     s!"{cid},{c.goal},{keys},{ha},{up},{c.retry},{c.reCount}"
   let r := n.relays.map fun (cid, r) =>
     s!"{cid},{r.next},{r.hop.addr},{r.hop.peer},{r.hop.key},{dirNum r.dir},{r.reCount}"
-  let e := n.exits.map fun (cid, e) => s!"{cid},{e.hop.addr},{e.hop.peer},{e.hop.key},{b2n e.enabled}"
+  let e := n.exits.map fun (cid, e) => s!"{cid},{e.hop.addr},{e.hop.peer},{e.hop.key},{e.phase},{e.queue.length}"
   let q := n.created.map toString
   let p := n.creates.map fun rq =>
     s!"{rq.number},{rq.extIdent},{rq.toId},{rq.fromId},{rq.peer.peer},{rq.peer.addr},{rq.toPeer.peer},{rq.toPeer.addr}"
@@ -189,6 +189,10 @@ def stepLine (net : Net) (toks : List String) : Net × String :=
       | "png", [o] =>
         match getNode net o with
         | some n => finish net (apiPing sym n)
+        | none => bad
+      | "og", [i, cid] =>
+        match getNode net i with
+        | some n => finish net (openStep n cid)
         | none => bad
       | "rmC", [i, cid] =>
         match getNode net i with
